@@ -262,6 +262,28 @@ def _check(run, rng, proof_ok, t):
             add(top, vpath, top, "virtual-main-abs", canary, inner, asm_at_prog=[("op", "pc", None), (kind, f"{top}/outside/secret.{x}")])
             top, proj, canary, inner = fresh()
             add(top, vpath, top, "virtual-main-abs", canary, inner, asm_at_prog=[(kind, f"{top}/proj2/secret.{x}"), ("op", "pc", None)])
+    # the SAME argument string used from files of different directories: allowed from one, outside from the other
+    # (a cache of verdicts keyed by the written path would let the second one through)
+    for kind in KINDS:
+        x = EXT[kind]
+        for first_inside in (True, False):
+            top, proj, canary, inner = fresh()
+            # proj/sub/a.etk: `../top.x` -> proj/top.x (inside);  proj/main.etk: `../top.x` -> top/top.x (outside, holds the canary)
+            t.write_text(top + f"/top.{x}", open(top + f"/outside/secret.{x}").read())
+            t.write_src(proj + "/sub/a.etk", [(kind, f"../top.{x}")])
+            body = [("import", "sub/a.etk"), (kind, f"../top.{x}")]
+            t.write_src(proj + "/main.etk", body if first_inside else list(reversed(body)))
+            add(top, proj + "/main.etk", top, "same-argument-two-directories", canary, inner)
+        # same name reached through a symlink in one directory only
+        top, proj, canary, inner = fresh()
+        if x == "etk":
+            t.write_src(proj + "/blob.etk", [("op", "gas", None)])
+        else:
+            t.write_text(proj + "/blob.hex", "5a")
+        t.symlink(proj + f"/sub/blob.{x}", f"../../outside/secret.{x}")
+        t.write_src(proj + "/sub/a.etk", [(kind, f"blob.{x}")])
+        t.write_src(proj + "/main.etk", [(kind, f"blob.{x}"), ("include", "sub/a.etk")])
+        add(top, proj + "/main.etk", top, "same-argument-two-directories", canary, inner)
     top, proj, canary, inner = fresh()
     add(top, "", top, "virtual-main", canary, inner, asm_at_prog=[("op", "pc", None)])
 
